@@ -619,3 +619,72 @@ def over_reads(ctx, modnames):
                     out.append({"function": f"{mn}:{q}", "stmt": ast.unparse(node)[:100], "file": src.rel, "line": node.lineno,
                                 "size": ast.unparse(a)})
     return out
+
+
+# ------------------------------------------------------------------ error discipline of the generator's driver
+FS_CALLS = {"rmtree", "mkdir", "unlink", "rmdir", "makedirs", "remove", "touch"}
+FS_ABSENCE = {"FileNotFoundError", "FileExistsError"}
+
+
+def swallowed_errors(ctx, modnames):
+    """Places in the given modules where an exception raised while the generator runs is dropped: an `except` handler that neither
+    re-raises nor raises something else on every way through it, `contextlib.suppress(...)`, and `ignore_errors=True` / `onerror=` /
+    `onexc=` on a filesystem call.  Accepted idiom (confirmed on the pinned tree, one instance): a handler for FileNotFoundError /
+    FileExistsError only, around a try body that consists of filesystem creation / removal calls -- "already gone / already there".
+    Rows: {ok, module, function, file, line, stmt, what}; one row per construct looked at (ok=True rows are the census)."""
+    rows = []
+    for mn in modnames:
+        src = ctx.sm.get(mn)
+        if src is None:
+            raise AnalysisError(f"anchor vanished: module {mn}")
+        qidx = qualname_index(src.tree)
+
+        def always_raises(stmts):
+            """Every way through the statement list ends in a raise (or sys.exit / exit)."""
+            for st in stmts:
+                if isinstance(st, ast.Raise):
+                    return True
+                if isinstance(st, ast.Expr) and isinstance(st.value, ast.Call) and ast.unparse(st.value.func) in ("sys.exit", "exit", "quit", "os._exit"):
+                    return True
+                if isinstance(st, ast.If) and st.orelse and always_raises(st.body) and always_raises(st.orelse):
+                    return True
+                if isinstance(st, (ast.Return, ast.Continue, ast.Break)):
+                    return False
+            return False
+        for node in ast.walk(src.tree):
+            if isinstance(node, ast.Try):
+                for h in node.handlers:
+                    q, _fn = enclosing(qidx, src.tree, h)
+                    names = []
+                    if h.type is None:
+                        names = ["<bare>"]
+                    elif isinstance(h.type, ast.Tuple):
+                        names = [ast.unparse(e).split(".")[-1] for e in h.type.elts]
+                    else:
+                        names = [ast.unparse(h.type).split(".")[-1]]
+                    stmt = f"except {', '.join(names)}: " + "; ".join(ast.unparse(x)[:50] for x in h.body)[:100]
+                    if always_raises(h.body):
+                        rows.append({"ok": True, "module": mn, "function": q, "file": src.rel, "line": h.lineno, "stmt": stmt, "what": "re-raises"})
+                        continue
+                    body_calls = [c for st in node.body for c in ast.walk(st) if isinstance(c, ast.Call)]
+                    fs_only = bool(body_calls) and all(isinstance(st, ast.Expr) and isinstance(st.value, ast.Call) and
+                                                       ast.unparse(st.value.func).split(".")[-1] in FS_CALLS for st in node.body)
+                    if set(names) <= FS_ABSENCE and fs_only:
+                        rows.append({"ok": True, "module": mn, "function": q, "file": src.rel, "line": h.lineno, "stmt": stmt,
+                                     "what": "already gone / already there"})
+                        continue
+                    rows.append({"ok": False, "module": mn, "function": q, "file": src.rel, "line": h.lineno, "stmt": stmt,
+                                 "what": f"the handler for {', '.join(names)} ends without raising: what was being generated when the exception "
+                                         f"occurred is left half-done and the run goes on (and ends successfully)"})
+            elif isinstance(node, ast.Call):
+                fn_src = ast.unparse(node.func)
+                q, _fn = enclosing(qidx, src.tree, node)
+                if fn_src.split(".")[-1] == "suppress":
+                    rows.append({"ok": False, "module": mn, "function": q, "file": src.rel, "line": node.lineno, "stmt": ast.unparse(node)[:100],
+                                 "what": "contextlib.suppress drops the exception"})
+                for k in node.keywords:
+                    if (k.arg == "ignore_errors" and not (isinstance(k.value, ast.Constant) and k.value.value is False)) or k.arg in ("onerror", "onexc"):
+                        rows.append({"ok": False, "module": mn, "function": q, "file": src.rel, "line": node.lineno, "stmt": ast.unparse(node)[:100],
+                                     "what": f"{fn_src}(..., {k.arg}=...) drops deletion errors: what could not be removed stays in the tree and "
+                                             f"the new output is written on top of it"})
+    return rows
